@@ -16,6 +16,13 @@ func keyIndex(ma *MapAgg, key Val) int {
 	}
 	for i, k := range ma.Keys {
 		eq, ok := textEq(k.(Text), kt)
+		if ok && !eq.isConst() && singleAtom(k.(Text)) && singleAtom(kt) {
+			// two different unknown strings used as keys of one map: explored under
+			// the assumption that they differ (the equal case coincides with a
+			// single-key run); recorded as an assumption
+			mapKeyAssumptions[k.(Text).String()+" != "+kt.String()] = true
+			continue
+		}
 		if !ok || !eq.isConst() {
 			unsupported("undecidable map key comparison %s == %s", k.(Text), kt)
 		}
@@ -102,3 +109,7 @@ func (e *Exec) rangeNext(s *State, b *ssa.BasicBlock, idx int, prev *ssa.BasicBl
 	return nil, true
 }
 
+
+var mapKeyAssumptions = map[string]bool{}
+
+func singleAtom(t Text) bool { return len(t.Frags) == 1 && t.Frags[0].Kind == FAtom }
